@@ -17,6 +17,7 @@ mod runner;
 mod subj;
 mod types;
 mod tys;
+mod zst;
 
 use runner::*;
 use subj::*;
@@ -39,6 +40,9 @@ pub struct Args {
     /// large capacities (hundreds of entries), so that lists fill up and churn at sizes the small configurations
     /// never reach
     pub big: bool,
+    /// W-TinyLFU: tiny caches, a handful of keys, long sample windows and long histories, so that the 4-bit counters
+    /// saturate and estimates of 15 and 16 meet in the admission test
+    pub hot: bool,
 }
 
 fn parse_args() -> Args {
@@ -54,6 +58,7 @@ fn parse_args() -> Args {
         corpus: None,
         hgroup: false,
         big: false,
+        hot: false,
     };
     let mut i = 2;
     while i < a.len() {
@@ -67,6 +72,7 @@ fn parse_args() -> Args {
             "--corpus" => r.corpus = Some(v),
             "--hgroup" => r.hgroup = v != "0",
             "--big" => r.big = v != "0",
+            "--hot" => r.hot = v != "0",
             "--shard" => {
                 let p: Vec<&str> = v.split('/').collect();
                 r.shard = (p[0].parse().unwrap(), p[1].parse().unwrap());
@@ -115,7 +121,7 @@ fn slice_lru(a: &Args, t: &mut Trace) {
             continue;
         }
         let mut r = rng_for(a.seed, stream);
-        let cap = if a.big { *r.pick(&[100u64, 257, 300, 513]) } else if r.chance(1, 40) { 128 } else { *r.pick(&caps) };
+        let cap = if a.big { *r.pick(&[20u64, 28, 100, 257, 300, 513]) } else if r.chance(1, 40) { 128 } else { *r.pick(&caps) };
         let ctor = r.below(4);
         let ctor = if a.hgroup { if ctor >= 2 { 3 } else { 1 } } else { ctor };
         let hmode = r.below(5);
@@ -149,6 +155,97 @@ fn slice_lru(a: &Args, t: &mut Trace) {
 }
 
 
+/// RawLRU<TKey, ()> (zst.rs): the histories of an LRU set, replayed in the model of kind 0
+fn slice_lruzst(a: &Args, t: &mut Trace) {
+    let caps: [u64; 8] = [1, 2, 2, 3, 3, 4, 5, 8];
+    for i in 0..a.n {
+        let (mine, stream, _) = case_plan(a, i);
+        if !mine {
+            continue;
+        }
+        let mut r = rng_for(a.seed, stream + 18_000_000);
+        let cap = *r.pick(&caps);
+        let len = r.range(a.len / 4 + 1, a.len) as usize;
+        let mut kg = gen::KeyGen::new(cap + 3);
+        let mut vg = gen::ValGen(1000);
+        let cfg = [cap as i128, 0];
+        let id = format!("lruzst-s{}-i{}", a.seed, i);
+        run_case(
+            t,
+            &id,
+            0,
+            &cfg,
+            "zst=1",
+            &|| Box::new(zst::ZLruSubj::new(cap as usize)),
+            &mut |step, snap| {
+                if step >= len {
+                    None
+                } else {
+                    let op = gen::lru_op(&mut r, &mut kg, &mut vg, snap, cap);
+                    Some(if zst::OPS.contains(&op[0]) { op } else { vec![0, op.get(1).cloned().unwrap_or(0).max(0) % (cap as i128 + 3), vg.next()] })
+                }
+            },
+            &tag,
+        );
+    }
+}
+
+/// SegmentedCache / TwoQueueCache / AdaptiveCache over (TKey, ()), built by the plain constructors, replayed in the
+/// models of kinds 1-3 (zst.rs)
+fn slice_compzst(a: &Args, t: &mut Trace) {
+    use caches::{AdaptiveCache, SegmentedCache, TwoQueueCache};
+    for i in 0..a.n {
+        let (mine, stream, _) = case_plan(a, i);
+        if !mine {
+            continue;
+        }
+        let mut r = rng_for(a.seed, stream + 19_000_000);
+        let which = 1 + (i % 3) as u32;
+        let len = r.range(a.len / 4 + 1, a.len) as usize;
+        let mut vg = gen::ValGen(1000);
+        let id = format!("compzst-s{}-i{}", a.seed, i);
+        match which {
+            1 => {
+                let (pc, fc) = (r.range(1, 4), r.range(1, 4));
+                let mut kg = gen::KeyGen::new(pc + fc + 3);
+                let ops: &[i128] = <SegmentedCache<TKey, ()> as zst::ZComp>::OPS;
+                run_case(t, &id, 1, &[pc as i128, fc as i128], "zst=1 via=1",
+                    &|| Box::new(zst::ZCompSubj::new(SegmentedCache::<TKey, ()>::new(pc as usize, fc as usize).unwrap())),
+                    &mut |step, snap| if step >= len { None } else {
+                        let op = gen::slru_op(&mut r, &mut kg, &mut vg, snap);
+                        Some(if ops.contains(&op[0]) { op } else { vec![0, r.below(pc + fc + 3) as i128, vg.next()] })
+                    }, &tag);
+            }
+            2 => {
+                let size = r.range(2, 8) as usize;
+                let (rs, es) = twoq_quotas(size, 0.25, 0.5);
+                if es == 0 {
+                    continue;
+                }
+                let mut kg = gen::KeyGen::new(size as u64 + es as u64 + 3);
+                let ops: &[i128] = <TwoQueueCache<TKey, ()> as zst::ZComp>::OPS;
+                run_case(t, &id, 2, &[size as i128, rs as i128, es as i128], "zst=1 via=1",
+                    &|| Box::new(zst::ZCompSubj::new(TwoQueueCache::<TKey, ()>::new(size).unwrap())),
+                    &mut |step, snap| if step >= len { None } else {
+                        let op = gen::twoq_op(&mut r, &mut kg, &mut vg, snap);
+                        Some(if ops.contains(&op[0]) { op } else { vec![0, r.below(size as u64 + es as u64 + 3) as i128, vg.next()] })
+                    }, &tag);
+            }
+            _ => {
+                let size = r.range(1, 6) as usize;
+                let mut kg = gen::KeyGen::new(2 * size as u64 + 3);
+                let ops: &[i128] = <AdaptiveCache<TKey, ()> as zst::ZComp>::OPS;
+                run_case(t, &id, 3, &[size as i128], "zst=1 via=1",
+                    &|| Box::new(zst::ZCompSubj::new(AdaptiveCache::<TKey, ()>::new(size).unwrap())),
+                    &mut |step, snap| if step >= len { None } else {
+                        let op = gen::arc_op(&mut r, &mut kg, &mut vg, snap);
+                        Some(if ops.contains(&op[0]) { op } else { vec![0, r.below(2 * size as u64 + 3) as i128, vg.next()] })
+                    }, &tag);
+            }
+        }
+    }
+}
+
 /// RawLRU under a hasher whose answers change while keys are stored (`VHasher::Liar`, op 96 changes the salt): what a
 /// key with interior state read by its `Hash` does, in safe code.  The index then loses and duplicates keys, so no model
 /// predicts the results; the histories are judged on the implementation only: the structural audit after every call,
@@ -181,6 +278,11 @@ fn slice_lruliar(a: &Args, t: &mut Trace) {
                     None
                 } else if r.chance(1, 10) {
                     Some(vec![96, *r.pick(&[0u64, 1, 2, 3, 8, 1 << 40, u64::MAX]) as i128])
+                } else if r.chance(1, 25) {
+                    // a Clone of the key that merges neighbouring keys, switched on or off; clones follow soon (op 25)
+                    Some(vec![95, r.below(2) as i128])
+                } else if r.chance(1, 20) {
+                    Some(vec![25])
                 } else {
                     // (a shrinking `resize` loops on `remove_lru` until the index is small enough: with an index that
                     // cannot find the least recent key it need not end - non-termination is among the outcomes the
@@ -708,8 +810,8 @@ fn slice_comp(a: &Args, t: &mut Trace, which: u32) {
         let mut vg = gen::ValGen(1000);
         match which {
             1 => {
-                let pc = if a.big { *r.pick(&[60u64, 130, 257]) } else if r.chance(1, 30) { 20 } else { r.range(1, 4) };
-                let fc = if a.big { *r.pick(&[60u64, 130, 257]) } else if r.chance(1, 30) { 20 } else { r.range(1, 4) };
+                let pc = if a.big { *r.pick(&[20u64, 28, 32, 50, 60, 130, 257]) } else if r.chance(1, 30) { 20 } else { r.range(1, 4) };
+                let fc = if a.big { *r.pick(&[1u64, 8, 28, 60, 130, 257]) } else if r.chance(1, 30) { 20 } else { r.range(1, 4) };
                 let mut kg = gen::KeyGen::new(pc + fc + 3);
                 let mut bias = gen::BigBias::new(2 * (pc + fc) + 7);
                 let big = a.big;
@@ -724,7 +826,7 @@ fn slice_comp(a: &Args, t: &mut Trace, which: u32) {
                     &tag);
             }
             2 => {
-                let size = if a.big { *r.pick(&[12u64, 40, 100, 257, 400]) } else if r.chance(1, 30) { 64 } else { r.range(1, 8) } as usize;
+                let size = if a.big { *r.pick(&[12u64, 28, 40, 100, 257, 400]) } else if r.chance(1, 30) { 64 } else { r.range(1, 8) } as usize;
                 // pick ratios for which construction succeeds (ghost quota >= 1)
                 let mut rri = r.below(RATIOS.len() as u64) as usize;
                 let mut gri = r.below(RATIOS.len() as u64) as usize;
@@ -753,7 +855,7 @@ fn slice_comp(a: &Args, t: &mut Trace, which: u32) {
                     &tag);
             }
             _ => {
-                let size = if a.big { *r.pick(&[8u64, 12, 20, 100, 257]) } else if r.chance(1, 30) { 32 } else { r.range(1, 6) } as usize;
+                let size = if a.big { *r.pick(&[8u64, 12, 20, 28, 100, 257]) } else if r.chance(1, 30) { 32 } else { r.range(1, 6) } as usize;
                 let mut kg = gen::KeyGen::new(2 * size as u64 + 3);
                 let mut bias = gen::BigBias::new(3 * size as u64 + 7);
                 let big = a.big;
@@ -792,12 +894,13 @@ fn slice_lfu(a: &Args, t: &mut Trace, which: u32) {
                 } else {
                     (r.range(1, 3), r.range(1, 3), r.range(1, 3))
                 };
-                let samples = *r.pick(&[1u64, 2, 3, 5, 8, 16, 64]);
+                let samples = if a.hot { *r.pick(&[300u64, 1000, 5000]) } else { *r.pick(&[1u64, 2, 3, 5, 8, 16, 64, 300, 1000]) };
+                let (w, prot, prob) = if a.hot { (r.range(1, 2), r.range(1, 2), r.range(1, 2)) } else { (w, prot, prob) };
                 let fpi = r.below(FPS.len() as u64) as usize;
                 let khmode = r.below(3);
                 let hmode = r.below(5);
                 let hmode = hforce.unwrap_or(hmode);
-                let mut kg = gen::KeyGen::new(w + prot + prob + 4);
+                let mut kg = gen::KeyGen::new(w + prot + prob + if a.hot { 2 } else { 4 });
                 let mut vg = gen::ValGen(1000);
                 let mut bias = gen::BigBias::new(2 * (w + prot + prob) + 7);
                 let big = a.big;
@@ -813,7 +916,7 @@ fn slice_lfu(a: &Args, t: &mut Trace, which: u32) {
             }
             5 => {
                 let size = *r.pick(&[1u64, 2, 3, 4, 7, 8, 16, 33, 64]);
-                let samples = *r.pick(&[1u64, 2, 3, 4, 7, 16, 64]);
+                let samples = *r.pick(&[1u64, 2, 3, 4, 7, 16, 64, 300, 1000]);
                 let fpi = r.below(FPS.len() as u64) as usize;
                 let mut pool = Vec::new();
                 let id = format!("tiny-s{}-i{}", a.seed, i);
@@ -995,10 +1098,14 @@ fn slice_comp_bfs(a: &Args, t: &mut Trace) {
 pub fn mk_subject(kind: u32, cfg: &[i128], meta: &std::collections::HashMap<String, u64>) -> Box<dyn Subject> {
     let m = |k: &str| meta.get(k).cloned().unwrap_or(0);
     match kind {
+        0 if m("zst") == 1 => Box::new(zst::ZLruSubj::new(cfg[0] as usize)),
         0 => {
             let ctor = if meta.contains_key("ctor") { m("ctor") } else if cfg[1] != 0 { 3 } else { 1 };
             mk_lru(cfg[0] as usize, ctor, m("hasher"))
         }
+        1 if m("zst") == 1 => Box::new(zst::ZCompSubj::new(caches::SegmentedCache::<TKey, ()>::new(cfg[0] as usize, cfg[1] as usize).unwrap())),
+        2 if m("zst") == 1 => Box::new(zst::ZCompSubj::new(caches::TwoQueueCache::<TKey, ()>::new(cfg[0] as usize).unwrap())),
+        3 if m("zst") == 1 => Box::new(zst::ZCompSubj::new(caches::AdaptiveCache::<TKey, ()>::new(cfg[0] as usize).unwrap())),
         1 if m("via") == 1 => mk_slru_plain(cfg[0] as usize, cfg[1] as usize),
         1 => mk_slru(cfg[0] as usize, cfg[1] as usize, m("hasher")),
         2 if m("via") == 1 => mk_twoq_plain(cfg[0] as usize, m("rri") as usize, m("gri") as usize),
@@ -1295,6 +1402,8 @@ fn main() {
         "lru" => slice_lru(&a, &mut t),
         "lruhuge" => slice_lruhuge(&a, &mut t),
         "lruliar" => slice_lruliar(&a, &mut t),
+        "lruzst" => slice_lruzst(&a, &mut t),
+        "compzst" => slice_compzst(&a, &mut t),
         "slru" => slice_comp(&a, &mut t, 1),
         "twoq" => slice_comp(&a, &mut t, 2),
         "arc" => slice_comp(&a, &mut t, 3),
